@@ -49,6 +49,53 @@ def twin_programs():
     return tw
 
 
+def imported_names(recs):
+    """Names the real expansion brings into the scope of the user's expressions with `use` items (a block-scoped import
+    shadows the caller's locals of the same name, exactly like a `let`).  Explicit imports give their last segment; a glob
+    import gives every public item of the module it names, read from /repo's sources."""
+    import os
+    import re
+    names, globs = set(), set()
+    for r in recs:
+        if r.status != "ok":
+            continue
+        text = maclib.text_of_tokens(r.tokens).replace("~", "")
+        for m in re.finditer(r"\buse\b ([^;]+);", text):
+            path = m.group(1).replace(" ", "")
+            if path.endswith("::*"):
+                globs.add(path[:-3])
+            elif "{" in path:
+                for n in re.findall(r"(\w+)\s*(?:,|})", path):
+                    names.add(n)
+            else:
+                names.add(path.split("::")[-1])
+    for g in globs:
+        segs = [x for x in g.split("::") if x]
+        if segs and segs[0] == "assert_struct":
+            src = open(os.path.join(vlib.REPO, "assert-struct", "src", "lib.rs")).read()
+            body = src
+            for seg in segs[1:]:
+                m = re.search(r"pub mod %s\s*\{" % re.escape(seg), body)
+                if not m:
+                    break
+                # the module's block (brace matching)
+                depth, i = 1, m.end()
+                while i < len(body) and depth:
+                    depth += {"{": 1, "}": -1}.get(body[i], 0)
+                    i += 1
+                body = body[m.end():i]
+            for m in re.finditer(r"pub (?:unsafe )?fn (\w+)|pub (?:static|const) (\w+)|pub (?:struct|enum|trait|type) (\w+)", body):
+                names.add(next(x for x in m.groups() if x))
+            for m in re.finditer(r"pub use [^;]*?(?:::\{([^}]*)\}|::(\w+))\s*;", body):
+                if m.group(1):
+                    names.update(x.strip().split(" as ")[-1] for x in m.group(1).split(",") if x.strip())
+                else:
+                    names.add(m.group(2))
+        else:
+            names.add("<glob import of %s: names unknown>" % g)
+    return sorted(names), sorted(globs)
+
+
 def program(body):
     return e2e.PRELUDE + DECLS + "fn main() { std::panic::set_hook(Box::new(|_| {})); run_case(\"t\", || { %s }); }\n" % body
 
@@ -58,8 +105,9 @@ def run(res):
                     "harness/mac (in-process expander; readback of binders with syn), rustc for the twin programs",
                     "tools/patgen.py, tools/expstage.py"]
     res.assumptions += ["callers do not use identifiers beginning with `__` (stated in c07_no_capture)",
-                        "residual, not claimed: the block-scoped `use std::convert::AsRef;` / `use ::assert_struct::Like;` also "
-                        "introduce names; a caller item named AsRef or Like with another meaning used inside a pattern expression is not covered"]
+                        "names brought in by the expansion's block-scoped `use` items are read off the real expansion on every run and a caller "
+                        "LOCAL of each such name is tried (value namespace); a caller TYPE named like an imported trait (AsRef, Like) used inside "
+                        "a pattern expression is not covered (the property speaks of variables)"]
     vlib.build_coq()
     ths, rep = vlib.check_props("C07")
     res.obligations += ths
@@ -97,6 +145,14 @@ def run(res):
                               "inventory_disagreements": inv_dis}
     # twin programs under the real rustc
     tw = twin_programs()
+    imported, globs = imported_names(oks[:200])
+    for n in imported:
+        if n.isidentifier():
+            tw.append(("a caller local named like `%s`, which the expansion imports into the block with `use`" % n,
+                       "let s = mk(); let {N} = 99; assert_struct!(s, S {{ age: == {N}, .. }});", n))
+            tw.append(("a caller local named like the imported `%s`, as the root expression" % n,
+                       "let {N} = 30; assert_struct!({N}, == 30);", n))
+    res.streams["imports"] = {"names_imported_by_the_expansion": imported, "glob_imports": globs}
     srcs = []
     for desc, body, local in tw:
         srcs.append(program(body.format(N=local)))
